@@ -527,8 +527,7 @@ Definition printValue (rec : recT) (env : env) (value : value) (verb : Z) (depth
 
 (* ---------- printArg ---------- *)
 (* what printArg does once the outermost wrapper / registered type has been accounted for *)
-Definition printArg_body (rec : recT) (env : env) (arg : value) (verb : Z) : M unit :=
-    (bracket_if (is_safe_value arg) start_safe_ovr
+Definition printArg_inner (rec : recT) (env : env) (arg : value) (verb : Z) : M unit :=
        (modify (fun s => set_val (set_arg s (match arg with VNil => None | _ => Some arg end)) None) ;;;
         match arg with
         | VNil =>
@@ -556,7 +555,10 @@ Definition printArg_body (rec : recT) (env : env) (arg : value) (verb : Z) : M u
                 if rbool h then ret tt
                 else rec (CPrintValue arg verb 0%nat true) ;;; ret tt
             end
-        end)).
+        end).
+
+Definition printArg_body (rec : recT) (env : env) (arg : value) (verb : Z) : M unit :=
+    bracket_if (is_safe_value arg) start_safe_ovr (printArg_inner rec env arg verb).
 
 Definition printArg (rec : recT) (env : env) (arg0 : value) (verb : Z) : M unit :=
   let reg := is_registered arg0 in
